@@ -746,6 +746,31 @@ def shrink(case, fails, budget=120):
     return cur
 
 
+def isolations(case, impl_results, F):
+    """candidate smaller library cases: one call of the session on its own (after a clean connect when it needs a
+    handle), fed exactly the bytes that call consumed, cut where the original chunks were cut"""
+    if case["kind"] != "lib" or not isinstance(impl_results, list) or len(case["ops"]) < 2:
+        return
+    stream = b"".join(c for c in case["chunks"] if c is not None)
+    ends, p = [], 0
+    for c in case["chunks"]:
+        if c is not None:
+            p += len(c); ends.append(p)
+    pos = 0
+    connect = [render(1, F["version"]) + PROMPT, render(105, b"Hostrange expansion ON") + PROMPT]
+    for o, r in zip(case["ops"], impl_results):
+        a, b = pos, pos + r["consumed"]
+        pos = b
+        if r["consumed"] == 0:
+            continue
+        cuts = [a] + [e for e in ends if a < e < b] + [b]
+        pieces = [stream[cuts[i]:cuts[i + 1]] for i in range(len(cuts) - 1)]
+        if o[0] in "cr":
+            yield dict(case, ops=[o], chunks=pieces)
+        else:
+            yield dict(case, ops=[("c",), o], chunks=connect + pieces)
+
+
 # ====================================================================== one case, both sides (shrinking, replay)
 class Runner:
     def __init__(self, ctx, F, impl, model, powerman):
@@ -910,6 +935,11 @@ def run(ctx, V):
         def fails(v, clause=clause, site=site):
             bad, _, _, _ = R.verdict(v)
             return any(b[0] == clause and b[1] == site for b in bad)
+        if c["kind"] == "lib":
+            a0, _ = R.lib(c)
+            for cand in isolations(c, (parse_lib_result(a0)[0] if isinstance(a0, str) else None), F):
+                if fails(cand):
+                    c = cand; break
         small = shrink(c, fails, budget=(10 if site == "hang" else 80 if ctx.tier == "quick" else 300))
         bad, _, a, b = R.verdict(small)
         d2 = next((x[2] for x in bad if x[0] == clause and x[1] == site), detail)
